@@ -55,6 +55,21 @@ def cases(rng, tier):
     for first in ["(ㄴ ㄱㅅㅎㄴ)", "(ㄹㅎㄱ)", "((ㅁㅈㅎㄱ) ㅈㄹㅎㄴ)"]:
         yield Case(program=f"{first} (ㄱㅇㄱ ㄱㅅㅎㄴ ㅎ) (ㄱㅇㄱ ㄱㅅㅎㄴ ㅎ) (ㄴ ㄱㅅㅎㄴ ㅎ) ({body} ㅎ) ㅎㅁ", tag='bind-handler-key',
                    monitor='c06_expect', data='[False, False, True, 1, 2, False, 1]')
+    # (1c) dictionaries are equal iff they have the same *entries* — not merely the same keys and the same values in some
+    # other pairing (seeded change S06i keyed a dictionary by the flat set of its keys and values)
+    I = VL.vint
+    dpairs = [([(1, 2)], [(2, 1)]), ([(1, 2)], [(1, 1), (2, 2)]), ([(1, 2), (3, 4)], [(1, 4), (3, 2)]), ([(1, 2), (3, 4)], [(3, 4), (1, 2)]),
+              ([(1, 1)], [(1, 1)]), ([(1, 2), (2, 1)], [(1, 1), (2, 2)]), ([(0, 5)], [(5, 0)]), ([(1, 2), (2, 3), (3, 1)], [(1, 3), (2, 1), (3, 2)]),
+              ([(1, 2)], [(1, 2), (2, 2)]), ([], [(1, 1)])]
+    for a_, b_ in dpairs:
+        da, db = VL.vdict([(I(k), I(v)) for k, v in a_]), VL.vdict([(I(k), I(v)) for k, v in b_])
+        for wn, wf in (('bare', lambda x: x), ('list', lambda x: VL.vlist([x])), ('exc', lambda x: VL.vexc([x])), ('value', lambda x: VL.vdict([(I(9), x)]))):
+            wa, wb = wf(da), wf(db)
+            yield Case(program=render(bi('ㄴ', wa.expr, wb.expr)), tag='dict-pairing-' + wn, monitor='c06_expect', data=pybool(VL.spec_eq(wa, wb)))
+        if not VL.spec_eq(da, db):
+            d = VL.vdict([(da, I(5)), (db, I(6))])
+            yield Case(program=render(call(d.expr, da.expr)), tag='dict-pairing-key', monitor='c06_expect', data='5')
+            yield Case(program=render(call(d.expr, db.expr)), tag='dict-pairing-key', monitor='c06_expect', data='6')
     # (1a) strings: equal iff the same code points — no normalisation, no case / width folding
     strs = [VL.vstr(x) for x in ["가", "\u1100\u1161", "\u00e9", "e\u0301", "\u212b", "\u00c5", "A\u030a", "\uf900", "\u8c48", "a", "A", "ａ", "", " "]]
     for x in strs:
